@@ -299,6 +299,29 @@ func execC03(x *Ctx, sc *wire.Scenario) *wire.Result {
 			table[ConvertMeta(seq)] = inputrc2Bind{b.Action, b.Macro}
 		}
 	}}
+	// the installed binds and the table of the payload must describe the same thing
+	// (a shrunk payload that no longer matches the environment is not a scenario of this family)
+	nOwn := 0
+	for _, bs := range sc.Env.Binds {
+		if !strings.HasPrefix(string(bs.Seq), c03Lead) || bs.Keymap != xx.Keymap {
+			continue
+		}
+		nOwn++
+		found := false
+		for _, b := range xx.Table {
+			if string(b.Seq) == string(bs.Seq) && (b.Probe >= 0) == !bs.Macro && (b.Probe >= 0 || inputrcEscape(string(b.Macro)) == bs.Action) {
+				found = true
+			}
+		}
+		if !found {
+			res.Counters["skipped:inconsistent_scenario"]++
+			return res
+		}
+	}
+	if nOwn != len(xx.Table) {
+		res.Counters["skipped:inconsistent_scenario"]++
+		return res
+	}
 	out := runSession(x, sc, sc.Plan, hooks, false)
 	absorb(res, out)
 	if out.End == "PANIC" || out.End == "DEADLOCK" || out.End == "LIVELOCK" {
